@@ -6,11 +6,11 @@ def check(run):
     thorough = run.tier == "thorough"
     n = 5 if thorough else 4
     configs = [("A1-builtin", n, "A1", "OpsBuiltin"), ("A2-builtin", n, "A2", "OpsBuiltin"),
-               ("A3-builtin", n, "A3", "OpsBuiltin"), ("A4-extended", n, "A4", "OpsExtended"), ("A5-builtin", n, "A5", "OpsBuiltin")]
+               ("A3-builtin", n, "A3", "OpsBuiltin"), ("A4-extended", n, "A4", "OpsExtended"), ("A5-builtin", n, "A5", "OpsBuiltin"), ("A6-odd", n, "A6", "OpsOdd")]
     if thorough:
         configs += [("A1-extended", 5, "A1", "OpsExtended"), ("A2-extended", 5, "A2", "OpsExtended")]
-    run.rules.append("leg M/R: every input of <= %d characters over five 14-character alphabets (1-4 byte characters, every character class, Unicode white space the engine treats as name characters, both quote characters together) "
-                     "under the built-in and an extended operator set, enumerated by TLC from the Lexer machine, all Lexer invariants in every state, "
+    run.rules.append("leg M/R: every input of <= %d characters over six 14-character alphabets (1-4 byte characters, every character class, Unicode white space the engine treats as name characters, both quote characters together) "
+                     "under the built-in and two extended operator sets (one with user operators such as ~, @@, U+2260 whose first character is neither a letter nor a built-in symbol), enumerated by TLC from the Lexer machine, all Lexer invariants in every state, "
                      "each complete behaviour replayed through the real tokenizer; non-trivial = at least two tokens or a lexical error" % n)
     run.rules.append("leg T: random UTF-8 inputs (biased to the classes the tokenizer distinguishes) tokenized by the real code and validated by TLC against the Lexer machine")
     lexfam.model_and_replay(run, configs, "C10")
